@@ -284,6 +284,9 @@ pub fn run_hash(case: &HashCase, st: &mut Stats) -> CaseResult {
     hash_part::<{ primes::U32_SMALL }>(case, 0, st)?;
     hash_part::<{ primes::U64_LARGEST }>(case, 1, st)?;
     hash_part::<{ primes::U32_TINY }>(case, 2, st)?;
+    // a field whose elements do not fit in 64 bits (exported 96-bit prime): hashes, cached hashes and the
+    // hash-identified builders keyed by them must not lose the upper bits anywhere
+    hash_part::<{ primes::U128_LARGE_1 }>(case, 0, st)?;
     let t = case.src.tt();
     st.flag("from_cnf", case.src.cnf().is_some());
     if !t.is_const() && t.support_size() >= 3 {
@@ -295,7 +298,7 @@ pub fn run_hash(case: &HashCase, st: &mut Stats) -> CaseResult {
 impl SubCheckT for Hash {
     type Case = HashCase;
     const NAME: &'static str = "hash";
-    const RULE: &'static str = "a function (random truth table or CNF) represented as BDDs under 3 orders, SDDs under 2 vtrees (compressed / uncompressed), an SDD built by the hash-identified builder and, for CNFs, both top-down stores (over the 64-bit field the hash-identified store's compilation and every conditioning of the result and of its negation, asked twice, must denote the right function); for the exported 32-bit primes and the 64-bit prime: every semantic_hash equals the defining sum over models of the product of the map's weights (harness mulmod), negations hash to 1 - h, cached_semantic_hash (BDD: order+map, SDD: vtree manager+map; one prime per builder) equals the recomputed hash twice in a row and after further operations, for the root and every internal BDD node. Non-trivial: non-constant, >=3 support variables (>=9 representations each)";
+    const RULE: &'static str = "a function (random truth table or CNF) represented as BDDs under 3 orders, SDDs under 2 vtrees (compressed / uncompressed), an SDD built by the hash-identified builder and, for CNFs, both top-down stores (over the 64-bit field the hash-identified store's compilation and every conditioning of the result and of its negation, asked twice, must denote the right function); for the exported 32-bit primes, the 64-bit prime and a 96-bit prime: every semantic_hash equals the defining sum over models of the product of the map's weights (harness mulmod), negations hash to 1 - h, cached_semantic_hash (BDD: order+map, SDD: vtree manager+map; one prime per builder) equals the recomputed hash twice in a row and after further operations, for the root and every internal BDD node. Non-trivial: non-constant, >=3 support variables (>=9 representations each)";
     fn cases(tier: Tier) -> u32 {
         tier.pick(4000, 50_000)
     }
@@ -455,6 +458,8 @@ pub fn run_sem(case: &SemCase, st: &mut Stats) -> CaseResult {
     // function hashing to 0) makes it emit malformed diagrams, and any assertion about it would alarm on a
     // correct tree with small but real probability. Histories are therefore decided over the 64-bit field.
     sem_history::<{ primes::U64_LARGEST }>(case, true, st)?;
+    // and over an exported 96-bit prime (collisions are even less likely there; hash values need more than 64 bits)
+    sem_history::<{ primes::U128_LARGE_1 }>(case, true, st)?;
     let nontrivial_ops = case.ops.iter().filter(|o| matches!(o, SOp::And(..) | SOp::Or(..) | SOp::Exists(..) | SOp::Cond(..))).count();
     if nontrivial_ops >= 4 && case.vt.k >= 3 {
         st.mark_nontrivial();
@@ -465,7 +470,7 @@ pub fn run_sem(case: &SemCase, st: &mut Stats) -> CaseResult {
 impl SubCheckT for SemBuilder {
     type Case = SemCase;
     const NAME: &'static str = "semantic_sdd_builder";
-    const RULE: &'static str = "SemanticSddBuilder over a random vtree (1..5 variables), with set_compression left alone / set to true / set to false, under <=30 operations from {literal, constant, not, and, or, condition, exists} plus compile_cnf (ite/iff/xor/compose are todo!() in that builder and outside the property): over GF(2^64-25) every returned SDD denotes the oracle function and eq(a,b) holds exactly when the truth tables are equal, for all pool pairs, the cached hash of every pool entry equals the defining sum, and a stats() call in the middle of the history changes nothing (the 32-bit primes are not used here: collisions are expected there by design). Non-trivial: >=4 and/or/exists/condition operations on >=3 variables";
+    const RULE: &'static str = "SemanticSddBuilder over a random vtree (1..5 variables), with set_compression left alone / set to true / set to false, under <=30 operations from {literal, constant, not, and, or, condition, exists} plus compile_cnf (ite/iff/xor/compose are todo!() in that builder and outside the property): over GF(2^64-25) and over the exported 96-bit prime U128_LARGE_1 every returned SDD denotes the oracle function and eq(a,b) holds exactly when the truth tables are equal, for all pool pairs, the cached hash of every pool entry equals the defining sum, and a stats() call in the middle of the history changes nothing (the 32-bit primes are not used here: collisions are expected there by design). Non-trivial: >=4 and/or/exists/condition operations on >=3 variables";
     fn cases(tier: Tier) -> u32 {
         tier.pick(6000, 80_000)
     }
